@@ -361,6 +361,16 @@ def builtin_setup(engine, name, st, fi, arity=None):
             if vararg:
                 env.vars[vararg] = plain_pack(ex, vararg)
                 args.append(Pack(env.vars[vararg]))
+            # a program calls builtins positionally: keyword-only parameters keep their defaults, **kw is empty
+            for kname, kd in fi.kwonly():
+                if kd is None:
+                    raise Unsupported('builtin with a required keyword-only parameter')
+                saved = ex.cur_module
+                ex.cur_module = fi.module
+                env.vars[kname] = ex.eval(kd, Env())
+                ex.cur_module = saved
+            if kwarg:
+                env.vars[kwarg] = L.DictV(ex.new_dict_from([]))
         else:
             for k in range(arity):
                 args.append(plain_arg(ex, 'a%d' % k))
